@@ -56,7 +56,17 @@ def run_job(job):
     import seqm.seqm_functions.rpa as rpamod
 
     rpamod.matrix_vector_product_batched = mv
+    if job.get("maxsub"):
+        # emulate a small memory budget: the subspace bound is derived from free memory, so small molecules never collapse otherwise
+        cap = int(job["maxsub"])
+        rb.getMaxSubspacesize = lambda *a, **k: cap
+        rpamod.getMaxSubspacesize = lambda *a, **k: cap
+        import seqm.seqm_functions.rcis_new as rnew
+
+        rnew.getMaxSubspacesize = lambda *a, **k: cap
     exc = {"n_states": int(job["nroots"]), "method": job["method"], "tolerance": job["tol"]}
+    if job.get("window"):
+        exc["orbital_window"] = tuple(job["window"])
     if job.get("max_iter"):
         exc["max_iter"] = int(job["max_iter"])
     params = mdlib.seqm_params(scf_eps=job["tol"] * 1e-2, scf_converger=[1], excited_states=exc)
@@ -67,15 +77,53 @@ def run_job(job):
         mol = scf_driver.make(job["mols"], params, displace=0.05)
         mol.verbose = False
         es = Electronic_Structure(params)
+        window_ref = None
+        if job.get("window"):
+            # reference for a windowed solve: the full CIS matrix (no window) restricted to the window's occupied x virtual pairs
+            pfull = mdlib.seqm_params(scf_eps=job["tol"] * 1e-2, scf_converger=[1], excited_states={"n_states": 1, "method": "cis", "tolerance": job["tol"]})
+            molf = scf_driver.make(job["mols"], pfull, displace=0.05)
+            molf.verbose = False
+            Electronic_Structure(pfull)(molf)
+            m_, wf, eaf, Cof, Cvf = captured["args"]
+            nocc, nvirt = Cof.shape[2], Cvf.shape[2]
+            nov = nocc * nvirt
+            eye = torch.eye(nov, dtype=wf.dtype).unsqueeze(0).expand(Cof.shape[0], nov, nov).contiguous()
+            Af = orig_mv(m_, eye, wf, eaf, Cof, Cvf)
+            Af = 0.5 * (Af + Af.transpose(1, 2))
+            nb, ma = job["window"]
+            keep = [i * nvirt + a for i in range(nocc - nb, nocc) for a in range(ma)]
+            sub = Af[:, keep][:, :, keep]
+            window_ref = torch.linalg.eigvalsh(sub)[:, : int(job["nroots"])].tolist()
+            captured.pop("args", None)
         if job.get("reuse"):
             es(mol)
             with torch.no_grad():
-                g = torch.Generator().manual_seed(3)
-                mol.coordinates.add_(0.02 * (torch.rand(mol.coordinates.shape, generator=g, dtype=torch.float64) - 0.5) * (mol.species > 0).unsqueeze(-1))
+                if job.get("second") == "rotate":
+                    x = mol.coordinates.clone()
+                    mol.coordinates[..., 0] = -x[..., 1]
+                    mol.coordinates[..., 1] = x[..., 0]
+                else:
+                    g = torch.Generator().manual_seed(3)
+                    mol.coordinates.add_(0.02 * (torch.rand(mol.coordinates.shape, generator=g, dtype=torch.float64) - 0.5) * (mol.species > 0).unsqueeze(-1))
             events.clear()
             es(mol, P0=mol.dm, cis_amp=mol.cis_amplitudes)
         else:
             es(mol)
+        if window_ref is not None:
+            out["window_ref"] = window_ref
+        if job.get("reuse"):
+            # the same geometry on a molecule object that has no history
+            from seqm.Molecule import Molecule
+            from seqm.seqm_functions.constants import Constants
+
+            p2 = dict(params)
+            fresh = Molecule(Constants(), p2, mol.coordinates.detach().clone(), mol.species.clone(), charges=mol.tot_charge.clone(), mult=mol.mult.clone() if torch.is_tensor(mol.mult) else mol.mult)
+            fresh.verbose = False
+            keep_args = captured.get("args")
+            Electronic_Structure(p2)(fresh)
+            if keep_args is not None:
+                captured["args"] = keep_args
+            out["fresh_energies"] = fresh.cis_energies.detach().tolist()
         out["outcome"] = "returned"
         E = mol.cis_energies.detach()
         out["energies"] = E.tolist()
